@@ -166,6 +166,7 @@ var modelled = map[string]bool{
 	"math/big.NewInt": true, "math/big.NewRat": true,
 	"errors.New": true, "errors.Is": true, "errors.As": true, "fmt.Errorf": true, "fmt.Sprintf": true, "fmt.Sprint": true,
 	"github.com/formancehq/go-libs/v5/pkg/types/pointer.For": true,
+	"encoding/json.Unmarshal": true,
 	"strconv.Itoa": true, "strconv.FormatUint": true, "strconv.FormatInt": true,
 }
 
@@ -332,6 +333,34 @@ func (fv *FV) applyModel(st *State, call *ast.CallExpr, callee *types.Func, sel 
 			return []Term{fv.fresh("is", SBool)}, true
 		}
 		return []Term{T(sx("errIs", e.S, fv.ss.StrConst("errclass:"+cls)), SBool)}, true
+	case "encoding/json.Unmarshal":
+		// json.Unmarshal(data, &x): x is overwritten with an arbitrary value of its type (JSON null leaves pointers and maps nil)
+		fv.evalExpr(st, call.Args[0])
+		tgt := stripParens(call.Args[1])
+		if u, ok := tgt.(*ast.UnaryExpr); ok && u.Op == token.AND && fv.isPathExpr(stripParens(u.X)) {
+			p := fv.lvalue(st, stripParens(u.X))
+			cur := fv.readPath(st, p, true)
+			fv.writePath(st, p, fv.fresh("unmarshalled", cur.Sort), call.Pos())
+		} else if fv.isPathExpr(tgt) {
+			p := fv.lvalue(st, tgt)
+			cur := fv.readPath(st, p, true)
+			switch cur.Sort.Kind {
+			case KPtr:
+				nv := fv.fresh("unmarshalled", cur.Sort)
+				st.assume(tEq(tEq(nv, ptrNil(cur.Sort)), tEq(cur, ptrNil(cur.Sort))))
+				fv.writePath(st, p, nv, call.Pos())
+			case KBig:
+				// target *big.Int: the pointee is overwritten; the pointer itself stays as it was
+				nv := fv.fresh("unmarshalled", SInt)
+				fv.writePath(st, p, tIte(tEq(cur, T("bnil", SBig)), cur, bigMk(nv)), call.Pos())
+			default:
+				fv.note("json.Unmarshal into an opaque target: target not modelled")
+			}
+		} else {
+			fv.evalExprLoose(st, call.Args[1])
+			fv.note("json.Unmarshal into a non-location: target not modelled")
+		}
+		return []Term{fv.fresh("jsonerr", SErr)}, true
 	case "errors.As":
 		for _, a := range call.Args {
 			fv.evalExprLoose(st, a)
@@ -544,6 +573,27 @@ func (fv *FV) ratModel(st *State, call *ast.CallExpr, name string, sel *ast.Sele
 		st.assume(T(sx(">", sx("rden", a.S), "0"), SBool))
 		st.assume(T(sx(">", sx("rden", b.S), "0"), SBool))
 		return []Term{T(sx("ite", sx("<", ratReal(a), ratReal(b)), "(- 1)", sx("ite", sx(">", ratReal(a), ratReal(b)), "1", "0")), SInt)}
+	case "Mul":
+		_, wb := fv.ratRecv(st, sel.X)
+		a, _ := fv.ratRecv(st, call.Args[0])
+		bb, _ := fv.ratRecv(st, call.Args[1])
+		r := fv.fresh("rat", SRat)
+		st.assume(T(sx(">", sx("rden", a.S), "0"), SBool))
+		st.assume(T(sx(">", sx("rden", bb.S), "0"), SBool))
+		st.assume(T(sx(">", sx("rden", r.S), "0"), SBool))
+		st.assume(T(sx("=", ratReal(r), sx("*", ratReal(a), ratReal(bb))), SBool))
+		wb(r)
+		pso := fv.ss.Of(fv.info.TypeOf(call))
+		return []Term{ptrMk(pso, r)}
+	case "SetString":
+		_, wb := fv.ratRecv(st, sel.X)
+		fv.evalExpr(st, call.Args[0])
+		ok := fv.fresh("ok", SBool)
+		r := fv.fresh("rat", SRat)
+		st.assume(T(sx(">", sx("rden", r.S), "0"), SBool))
+		wb(r)
+		rs, _ := fv.resultSorts(call)
+		return []Term{tIte(ok, ptrMk(rs[0], r), ptrNil(rs[0])), ok}
 	case "String", "FloatString", "RatString":
 		fv.ratRecv(st, sel.X)
 		for _, a := range call.Args {
